@@ -536,8 +536,10 @@ def gen_items(rng, depth=0, allow_import=True):
         r = rng.random()
         if r < 0.55:
             body.append(("ev",))
-        elif r < 0.65:
+        elif r < 0.62:
             body.append(("raise",))
+        elif r < 0.67:
+            body.append(("evraise",))
         elif r < 0.72:
             body.append(("exit",))
         elif allow_import and depth < 2:
@@ -552,6 +554,9 @@ def items_to_coq(body):
     for it in reversed(body):
         if it[0] == "ev":
             c = "IEv"
+        elif it[0] == "evraise":
+            out = "(ICons IEv (ICons IRaise %s))" % out
+            continue
         elif it[0] == "raise":
             c = "IRaise"
         elif it[0] == "exit":
@@ -568,6 +573,8 @@ def render_items(body, files, name):
     for it in body:
         if it[0] == "ev":
             lines.append("x = 7")
+        elif it[0] == "evraise":
+            lines.append("x = 99")
         elif it[0] == "raise":
             lines.append('raise ValueError("v")')
         elif it[0] == "exit":
@@ -603,10 +610,21 @@ def stream_lifecycle(rng, n, work):
 
     d = work.sub("life")
     jobs, metas = [], []
+    scenarios = [
+        [("ev",), ("import", [("ev",), ("raise",)], True), ("import", [("ev",)], False), ("exit",)],
+        [("ev",), ("import", [("ev",), ("raise",)], True), ("import", [("ev",), ("ev",)], False), ("ev",)],
+        [("ev",), ("import", [("ev",), ("evraise",)], True), ("ev",), ("import", [("ev",)], False), ("raise",)],
+        [("ev",), ("evraise",), ("ev",)],
+        [("ev",), ("import", [("ev",), ("exit",)], False), ("ev",)],
+        [("ev",), ("import", [("ev",), ("import", [("ev",), ("raise",)], False)], True), ("ev",), ("exit",)],
+    ]
     for ci in range(n):
         single = rng.random() < 0.5
         body = gen_items(rng, allow_import=not single)
-        mode = rng.choice(["run_analysis", "direct"])
+        if ci < len(scenarios) * 2:
+            body = scenarios[ci // 2]
+            single = False
+        mode = rng.choice(["run_analysis", "direct"]) if ci >= len(scenarios) * 2 else ["run_analysis", "direct"][ci % 2]
         cov = rng.random() < 0.4
         files = {}
         render_items(body, files, "main")
@@ -637,6 +655,7 @@ def stream_lifecycle(rng, n, work):
         flat = json.dumps(m["body"])
         stats["single_module"] += m["single"]
         stats["with_raise"] += '"raise"' in flat
+        stats["with_hook_raise"] = stats.get("with_hook_raise", 0) + ('"evraise"' in flat)
         stats["with_exit"] += '"exit"' in flat
         stats["coverage"] += m["coverage"]
         stats["run_analysis"] += m["mode"] == "run_analysis"
